@@ -178,6 +178,11 @@ class CtorFn(Fn):
                     return self.modattr(node, env[head][1], tail)
                 if head in env and env[head][0] == "obj":
                     return self.objattr2(node, env[head][1], tail, env)
+                parts = path.split(".")
+                for i in range(len(parts) - 1, 1, -1):               # self._start.<attribute> of an IPRange receiver
+                    pre = ".".join(parts[:i])
+                    if pre in self.attrs and self.attrs[pre][0] == "obj":
+                        return self.objattr2(node, self.attrs[pre][1], ".".join(parts[i:]), env)
         if (isinstance(node, ast.Compare) and len(node.ops) == 1 and isinstance(node.ops[0], (ast.In, ast.NotIn))
                 and isinstance(node.left, ast.Constant) and isinstance(node.left.value, str) and len(node.left.value) == 1
                 and 32 <= ord(node.left.value) < 127 and node.left.value != '"'):
